@@ -184,7 +184,9 @@ func (m Model) float0(bits uint64, size int) Exp {
 		return strS("-Inf")
 	}
 	if m.Set.FloatPrec != -1 {
-		return Exp{Kind: "anynum"}
+		// documented (globals.go): a precision other than -1 "controls the number of digits when formatting
+		// float numbers in JSON. See strconv.FormatFloat" -- fixed-point text with that many digits
+		return Exp{Kind: "ftext", S: strconv.FormatFloat(f, 'f', m.Set.FloatPrec, size)}
 	}
 	if size == 32 {
 		return Exp{Kind: "f32", Bits: bits}
@@ -862,6 +864,11 @@ func Match(n *jsonref.Node, e Exp) string {
 	case "anynum":
 		if n.Kind != jsonref.Num {
 			return "expected a number, got " + n.String()
+		}
+		return ""
+	case "ftext":
+		if n.Kind != jsonref.Num || n.Raw != e.S {
+			return fmt.Sprintf("expected the float rendered as %s (strconv 'f' at FloatingPointPrecision), got %s", e.S, n.String())
 		}
 		return ""
 	case "null":
